@@ -74,3 +74,30 @@ def spec_shell(sh):
 
 def rng_for(seed, *tags):
     return random.Random("%d/%s" % (seed, "/".join(str(t) for t in tags)))
+
+
+def far_origin(rng):
+    """A frame origin tens of bohr away from the coordinate origin (exactly representable)."""
+    return [dyadic(rng.choice([-1, 1]) * rng.choice([24.0, 37.5, 52.25, 64.0, 96.5]), 30) for _ in range(3)]
+
+
+def add(c1, c2):
+    from fractions import Fraction as Fr
+    out = []
+    for a, b in zip(c1, c2):
+        v = Fr(a[0]) * Fr(2) ** a[1] + Fr(b[0]) * Fr(2) ** b[1]
+        n, d = v.numerator, v.denominator
+        e = 0
+        while d > 1:
+            d //= 2
+            e -= 1
+        out.append([n, e])
+    return out
+
+
+def tiny_offset(rng):
+    """A displacement of 1e-3 .. 1e-5 bohr (a power of two per axis, some axes zero)."""
+    out = [[rng.choice([-1, 1]) * rng.choice([0, 1, 3]), -rng.randint(11, 16)] for _ in range(3)]
+    if not any(o[0] for o in out):
+        out[rng.randrange(3)] = [1, -13]
+    return out
